@@ -91,7 +91,8 @@ theorem qsim_modifyFrame {P : Qp} {s t : St} (hR : StRq P s t) (e : Nat) {g' g :
 theorem qsim_bump {P : Qp} {s t : St} (hR : StRq P s t) (e : Nat) {g : Frame → Frame}
     (hg : ∀ f, (g f).store = f.store ∧ (g f).outer = f.outer ∧ (g f).depth = f.depth ∧
       (g f).cacheKey = f.cacheKey ∧ (g f).function = f.function ∧ (g f).getMiss = f.getMiss + 1)
-    (hc : ∀ fs ft : Frame, fs.cantCache = ft.cantCache → (g fs).cantCache = (g ft).cantCache) :
+    (hc : ∀ fs ft : Frame, fs.cantCache = ft.cantCache → (g fs).cantCache = (g ft).cantCache)
+    (hl : ∀ f, (g f).localFunc = f.localFunc := by intro f; rfl) :
     SimQ P (modifyFrame (sh P.σ e) g) (modifyFrame e g) s t (fun _ _ => True) := by
   refine qsim_modifyFrame hR e ?_
   intro fs ft hte hfr
@@ -99,7 +100,8 @@ theorem qsim_bump {P : Qp} {s t : St} (hR : StRq P s t) (e : Nat) {g : Frame →
   obtain ⟨b1, b2, b3, b4, b5, b6⟩ := hg ft
   refine ⟨⟨by rw [a2, b2]; exact hfr.outer, by rw [a3, b3]; exact hfr.depth,
     by rw [a4, b4]; exact hfr.cacheKey, by rw [a5, b5]; exact hfr.function,
-    by rw [a1, b1]; exact hfr.lk, by rw [b1]; exact hfr.cl, by rw [b1, b3]; exact hfr.dirty, ?_, ?_⟩, ?_⟩
+    by rw [a1, b1]; exact hfr.lk, by rw [b1]; exact hfr.cl, by rw [b1, b3]; exact hfr.dirty, ?_, ?_,
+    by rw [hl fs, hl ft]; exact hfr.localFunc⟩, ?_⟩
   · intro h
     obtain ⟨h1, h2⟩ := hfr.missNew h
     exact ⟨by rw [a6, b6, h1], hc fs ft h2⟩
@@ -261,12 +263,13 @@ theorem FrQ.setStore {P : Qp} {i : Nat} {fs ft fs' ft' : Frame} (h : FrQ P i fs 
     (hs : fs'.store = setStore fs.store name (ren P.σ v) ∧ fs'.outer = fs.outer ∧ fs'.depth = fs.depth ∧
       fs'.cacheKey = fs.cacheKey ∧ fs'.function = fs.function ∧ fs'.getMiss = fs.getMiss ∧ fs'.cantCache = fs.cantCache)
     (ht : ft'.store = setStore ft.store name v ∧ ft'.outer = ft.outer ∧ ft'.depth = ft.depth ∧
-      ft'.cacheKey = ft.cacheKey ∧ ft'.function = ft.function ∧ ft'.getMiss = ft.getMiss ∧ ft'.cantCache = ft.cantCache) :
+      ft'.cacheKey = ft.cacheKey ∧ ft'.function = ft.function ∧ ft'.getMiss = ft.getMiss ∧ ft'.cantCache = ft.cantCache)
+    (hl : fs'.localFunc = ft'.localFunc) :
     FrQ P i fs' ft' := by
   obtain ⟨a1, a2, a3, a4, a5, a6, a7⟩ := hs
   obtain ⟨b1, b2, b3, b4, b5, b6, b7⟩ := ht
   refine ⟨by rw [a2, b2]; exact h.outer, by rw [a3, b3]; exact h.depth, by rw [a4, b4]; exact h.cacheKey,
-    by rw [a5, b5]; exact h.function, ?_, ?_, ?_, ?_, ?_⟩
+    by rw [a5, b5]; exact h.function, ?_, ?_, ?_, ?_, ?_, hl⟩
   · intro n hn
     rw [a1, b1, lookupStore_setStore, lookupStore_setStore]
     by_cases hnn : n = name
@@ -290,7 +293,7 @@ theorem FrQ.setStore {P : Qp} {i : Nat} {fs ft fs' ft' : Frame} (h : FrQ P i fs 
 /-- deleting a name that is not dirty -/
 theorem FrQ.delStore {P : Qp} {i : Nat} {fs ft : Frame} (h : FrQ P i fs ft) (name : String) (hnd : ¬ P.D i name) :
     FrQ P i { fs with store := delStore fs.store name } { ft with store := delStore ft.store name } := by
-  refine ⟨h.outer, h.depth, h.cacheKey, h.function, ?_, ?_, ?_, h.missNew, h.missOld⟩
+  refine ⟨h.outer, h.depth, h.cacheKey, h.function, ?_, ?_, ?_, h.missNew, h.missOld, h.localFunc⟩
   · intro n hn
     simp only [lookupStore_delStore]
     by_cases hnn : n = name
@@ -404,7 +407,7 @@ theorem qsim_makeRef_go {P : Qp} (orig : Nat) (name : String) (ho : P.σ.n0 ≤ 
           refine SimQ.bind (Q := fun _ _ => True) ?_ ?_ (by tr) (by tr)
           · refine qsim_modifyFrame hR orig ?_
             intro fs1 ft1 hte1 hfr1
-            exact ⟨hfr1.setStore name hnd0 hcr ⟨rfl, rfl, rfl, rfl, rfl, rfl, rfl⟩ ⟨rfl, rfl, rfl, rfl, rfl, rfl, rfl⟩,
+            exact ⟨hfr1.setStore name hnd0 hcr ⟨rfl, rfl, rfl, rfl, rfl, rfl, rfl⟩ ⟨rfl, rfl, rfl, rfl, rfl, rfl, rfl⟩ hfr1.localFunc,
               frameDec_setStore (hR.dec orig ft1 hte1) name hr⟩
           · intro _ _ s1 t1 hR1 _
             have hres : QOptq P (some (ren P.σ r)) (some r) := ⟨rfl, fun v h => by cases h; exact hcr⟩
@@ -581,11 +584,13 @@ theorem qsim_storeSet {P : Qp} {s t : St} (hR : StRq P s t) (e : Nat) (name : St
       (g' f).cantCache = f.cantCache)
     (hg : ∀ f, (g f).store = setStore f.store name v ∧ (g f).outer = f.outer ∧ (g f).depth = f.depth ∧
       (g f).cacheKey = f.cacheKey ∧ (g f).function = f.function ∧ (g f).getMiss = f.getMiss ∧
-      (g f).cantCache = f.cantCache) :
+      (g f).cantCache = f.cantCache)
+    (hl : ∀ fs ft : Frame, fs.depth = ft.depth → fs.localFunc = ft.localFunc → (g' fs).localFunc = (g ft).localFunc := by
+      intro fs ft h1 h2; simp only [noteLocal, h1, h2, isFuncObj_ren]) :
     SimQ P (modifyFrame (sh P.σ e) g') (modifyFrame e g) s t (fun _ _ => True) := by
   refine qsim_modifyFrame hR e ?_
   intro fs ft hte hfr
-  refine ⟨hfr.setStore name hnd hc (hg' fs) (hg ft), ?_⟩
+  refine ⟨hfr.setStore name hnd hc (hg' fs) (hg ft) (hl fs ft hfr.depth hfr.localFunc), ?_⟩
   obtain ⟨b1, b2, _⟩ := hg ft
   have := hR.dec e ft hte
   refine ⟨by rw [b2]; exact this.1, ?_⟩
